@@ -434,7 +434,7 @@ def main(a):
             common.log("  note: witness of listed finding %s no longer fails (stale entry)" % f["id"])
             v.coverage.setdefault("stale_findings", []).append(f["id"])
     # --- A: match
-    mc = gen_match_cases(a.seed, 300 if quick else 20000, quick)
+    mc = gen_match_cases(a.seed, 300 if quick else 60000, quick)
     lines = ["match\t%s\t%d" % (" ".join(str(p) for p in arms), vv) for (sh, vv, p, arms, mode, other) in mc]
     _, mo, _ = common.run_lines_parallel([drv, "c13"], lines)
     progs = [render_match(*c) for c in mc]
@@ -456,7 +456,7 @@ def main(a):
                 {"program": progs[k], "expected_stdout": exp, "expected_class": cls, "impl_stdout": o[0],
                  "impl_exit_class": o[1], "impl_stderr": o[2][-300:]}, tags_of(sh, vv, p, mode))
     # --- B: chains and nests
-    ch = gen_chains(a.seed, 150 if quick else 8000, quick)
+    ch = gen_chains(a.seed, 150 if quick else 25000, quick)
     lines = []
     for (t, kind, items, base) in ch:
         if t == "chain":
@@ -478,7 +478,7 @@ def main(a):
                  {"program": progs[k], "expected_stdout": exp, "expected_class": "ok", "impl_stdout": o[0],
                   "impl_exit_class": o[1], "impl_stderr": o[2][-300:]})
     # --- C: try / checked over core expressions
-    tc = gen_try(a.seed, 250 if quick else 12000)
+    tc = gen_try(a.seed, 250 if quick else 40000)
     res = refrun.model_run([s for s, _ in tc])
     progs, exps = [], []
     nerr = 0
